@@ -160,7 +160,7 @@ class BatchHandler:
         # Override
         for k, v in batch.items():
             loaded_net.nodes[k].update({'output': v})
-            del loaded_net.nodes[k]['operation']
+            loaded_net.nodes[k].pop('operation', None)
 
         task_id = self.client.submit(loaded_net)
         self._pending_batches[batch_index] = task_id
